@@ -111,6 +111,15 @@ def _check_direction(res, m, grid, lo, hi, olo, ohi, tb, inverse, site, dtype, f
             tol_e = (4096 if fam == "cub" else 256) * u + 2 * float(torch.exp(li[sel]).max()) * _ulp(max(abs(lo), abs(hi)), dtype)
             if inverse:
                 tol_e = (1e-6 if dtype == torch.float64 else 2e-3) * scale_out * max(1.0, float(torch.exp(li[sel]).max())) + (1e-3 * (ohi - olo) if fam == "cub" else 0.0)
+            if inverse and err > tol_e:
+                # a bin whose mass is below the resolution of the working dtype at that end (3.7e-7 of a box of height 0.01 at
+                # -0.49 in float32) is flat as far as the forward map can tell: every point of it is a pre-image of the
+                # end-point.  Accept a returned point whose forward image IS the end-point (to 256 ulp of the input scale).
+                with torch.no_grad():
+                    back = m.forward(yi[sel].reshape(-1, 1))[0].reshape(-1)
+                if float((back - xe).abs().max()) <= 256 * _ulp(max(abs(lo), abs(hi)), dtype):
+                    res.labels.append("endpoint_in_flat_bin")
+                    err = 0.0
             res.see_ratio(err, tol_e)
             if err > tol_e:
                 res.fail("endpoint", site, "%s: f(%s end %r)=%r, want %r" % (d, nm, xe, float(yi[sel][0]), ye), direction=d, dtype=dt, fam=fam, measured=err, tol=tol_e)
